@@ -294,6 +294,26 @@ fn miri(ctx: &Ctx, ev: &mut Ev, drv: &mut Driver) {
         check_mem(drv, ev, f, &src, dl, 0xA5, r.below(16), r.below(16), r.below(16));
         ev.nontrivial_hash(H::new().s(f.name()).b(&src.bytes).u16s(&src.units).u(dl as u64).get());
     }
+    // String / Vec receivers whose spare capacity spans page boundaries (the receivers pre-touch it page by page)
+    for k in 0..(if th { 6 } else { 2 }) {
+        let enc = ALL[r.below(40)];
+        let spare = [4097usize, 9000, 12289][(k + ctx.shard) % 3]; let existing = [0usize, 5, 4096][(k + ctx.shard / 3) % 3];
+        let stream = random_stream(&mut r, enc, 1); let stream = &stream[..stream.len().min(24)];
+        ev.case(); ev.api_calls += 2; ev.count("contract.bigsink-calls");
+        let mut s = String::with_capacity(existing + spare); for _ in 0..existing { s.push('p'); }
+        let (ptr, cap) = (s.as_ptr() as usize, s.capacity());
+        let mut d = enc.new_decoder_without_bom_handling();
+        let res = catch_unwind(AssertUnwindSafe(|| { if k % 2 == 0 { d.decode_to_string(stream, &mut s, true); } else { d.decode_to_string_without_replacement(stream, &mut s, true); } }));
+        if res.is_err() { ev.violation("panic", &format!("bigsink:{}:decode_to_string", crate::c01::family(enc)), format!("panicked | enc={} existing={} spare={} stream={}", enc.name(), existing, spare, hex(stream))); }
+        if s.as_ptr() as usize != ptr || s.capacity() != cap || !s.as_bytes()[..existing].iter().all(|b| *b == b'p') { ev.violation("realloc", &format!("bigsink:{}:decode_to_string", crate::c01::family(enc)), format!("String reallocated or existing contents altered | enc={} existing={} spare={}", enc.name(), existing, spare)); }
+        let mut v: Vec<u8> = Vec::with_capacity(existing + spare); for _ in 0..existing { v.push(0x5A); }
+        let (ptr, cap) = (v.as_ptr() as usize, v.capacity());
+        let mut e = enc.new_encoder();
+        let res = catch_unwind(AssertUnwindSafe(|| { if k % 2 == 0 { e.encode_from_utf8_to_vec("a\u{E9}\u{3042}\u{1F4A9}z", &mut v, true); } else { e.encode_from_utf8_to_vec_without_replacement("a\u{E9}\u{3042}\u{1F4A9}z", &mut v, true); } }));
+        if res.is_err() { ev.violation("panic", &format!("bigsink:{}:encode_from_utf8_to_vec", crate::c01::ofam(enc)), format!("panicked | enc={} existing={} spare={}", enc.name(), existing, spare)); }
+        if v.as_ptr() as usize != ptr || v.capacity() != cap || !v[..existing].iter().all(|b| *b == 0x5A) { ev.violation("realloc", &format!("bigsink:{}:encode_from_utf8_to_vec", crate::c01::ofam(enc)), format!("Vec reallocated or existing contents altered | enc={} existing={} spare={}", enc.name(), existing, spare)); }
+        ev.nontrivial_hash(H::new().s(enc.name()).b(stream).u(spare as u64).u(66).get());
+    }
     let toks = crate::alpha::utf8_tokens();
     for _ in 0..(if th { 40 } else { 8 }) {
         let mut bytes = vec![]; for _ in 0..2 + r.below(2) { bytes.extend_from_slice(toks[r.below(toks.len())]); }
